@@ -133,7 +133,7 @@ const FAMILIES: [&str; 20] = [
     "SerDes: G1Affine, G2, Fr, Fq12",
     "Fq sqrt, Fq2 sqrt, Fq12 inverse and Frobenius",
     "batch_normalization G1/G2",
-    "hash_to_field Fr / Fq2",
+    "hash_to_field Fr (XMD-SHA-512) / Fq2 (XOF-SHAKE256)",
     "G1 sum_of_products (160 terms) + G2 sum_of_products (130 terms)",
     "pairing_multi_product (17 pairs, repeated G2 elements)",
 ];
@@ -384,7 +384,9 @@ fn run_op(fam: usize, v: usize) -> u64 {
         17 => {
             let msg: &[u8] = if v == 1 { b"another message" } else { b"determinism" };
             let dst: &[u8] = if neg { DST2 } else { DST1 };
-            for x in hash_to_field::<Fr, ExpandMsgXmd<sha2::Sha256>>(msg, dst, 3) {
+            // XMD over SHA-512 here (families 10 and 11 use SHA-256): a process-wide value fixed by whichever hash comes first
+            // shows when this family runs after one of those
+            for x in hash_to_field::<Fr, ExpandMsgXmd<sha2::Sha512>>(msg, dst, 3) {
                 o.raw(&x);
             }
             for x in hash_to_field::<Fq2, ExpandMsgXof<sha3::Shake256>>(msg, dst, 2) {
